@@ -112,8 +112,11 @@ __CPROVER_requires(node < nbasins && parent < nbasins && i < m_nodes_adjacency_n
 /* the slot holds a tree edge incident to the popped basin (postcondition of the CSR phase, instance at slot i); a tree edge joins
  * two different basins (input well-formedness of the tree, producer compute_tree_*: an edge enters iff its end points are in different classes) */
 __CPROVER_requires(VE < m_edges_n && L0(VE) < nbasins && L1(VE) < nbasins && L0(VE) != L1(VE) && (L0(VE) == node || L1(VE) == node))
-__CPROVER_assigns(__CPROVER_object_whole(m_edges), __CPROVER_object_whole(m_reorder_stack), m_reorder_stack_n,
-                  __CPROVER_object_whole(m_pass_stack), m_pass_stack_n, __CPROVER_object_whole(m_parent_basins))
+/* model artefact: room below the ghost capacities (the real vectors reallocate) */
+__CPROVER_requires(m_reorder_stack_n < m_reorder_stack_cap && m_pass_stack_n < m_pass_stack_cap)
+/* frame: the visited edge, the new top of the stack, and the m_keep_order bookkeeping -- nothing else */
+__CPROVER_assigns(m_edges[m_nodes_adjacency[i]], m_reorder_stack[m_reorder_stack_n], m_reorder_stack_n,
+                  m_pass_stack[m_pass_stack_n], m_pass_stack_n, __CPROVER_object_whole(m_parent_basins))
 /* C15 (orientation), from the statement: the edge towards the parent basin is already stored as (parent, node) and stays as it is,
  * nothing is stacked for it ... */
 __CPROVER_ensures(IS_PARENT_EDGE ==> (EDGE_SAME(VE) && m_reorder_stack_n == OLD(m_reorder_stack_n)))
@@ -167,6 +170,317 @@ G_VISIT = Group(
            "ends up as (node, other end) with link and pass swapped together and weight/length untouched, and exactly one entry "
            "(other end, node, max(weight, level), level) is stacked; every other edge and every older stack entry is untouched")
 
+
+# --------------------------------------------------------------------------- (c) the depth-first parse: one pop, and the while loop
+import re as _re
+# the function is cut at the statement `m_reorder_stack.reserve(nbasins);`: unit orient_csr is the text before it, unit orient_dfs the text from it on
+CUT_KEEP_DFS = R(r"\A.*?(?=m_reorder_stack\.reserve\()", "\n", 1, flags=_re.S)
+CUT_KEEP_CSR = R(r"m_reorder_stack\.reserve\(.*\Z", "\n", 1, flags=_re.S)
+POP_INNER = r"while \(m_reorder_stack\.size\(\)\)\s*\{"
+TG_PARAMS = ", const struct or_tnode *TG, const size_t *ECH"
+TG_ARGS = ", TG, ECH"
+DFS_PRE = r"""
+#ifndef FSL_ORIENT_FOREST
+#define FSL_ORIENT_FOREST
+#define TPAR(b) (TG[(b)].par)
+#define TDEP(b) (TG[(b)].dep)
+#define TPED(b) (TG[(b)].pedge)
+#define TWSP(b) (TG[(b)].wsp)
+#define ECHILD(e) (ECH[(e)])
+#define HASP(b) (TPED(b) != SIZE_MAX)
+/* definition of the forest ghost at basin b: a basin with a parent edge is not the root, its parent is a basin one level nearer the
+ * root, and the parent edge names b as its child end */
+#define TWF(b) (!HASP(b) || ((b) != m_root && TPAR(b) < nbasins && TPED(b) < m_edges_n && ECHILD(TPED(b)) == (b) \
+    && TDEP(TPAR(b)) < nbasins && TDEP(TPAR(b)) + 1 == TDEP(b)))
+/* ... and at edge e: a tree edge is the parent edge of exactly one basin */
+#define EWF(e) (ECHILD(e) == SIZE_MAX || (ECHILD(e) < nbasins && TPED(ECHILD(e)) == (e) && TWF(ECHILD(e)) && TWF(TPAR(ECHILD(e)))))
+/* C15: tree edge e points from the basin nearer the root to the farther one */
+#define ORIENTED(e) (L0(e) == TPAR(ECHILD(e)) && L1(e) == ECHILD(e))
+/* the end points of tree edge e are its child basin and that basin's parent, in either order */
+#define LINKS(e) (ORIENTED(e) || (L0(e) == ECHILD(e) && L1(e) == TPAR(ECHILD(e))))
+/* stack-element invariant at slot s, from the task: the start entry is (root, root); every other entry (node, parent) names a basin
+ * and its parent in the forest, and the tree edge between them is already stored as (parent, node) */
+#define SE(s) (RS(s).node < nbasins && RS(s).parent < nbasins && (RS(s).node == RS(s).parent ? RS(s).node == m_root \
+    : (HASP(RS(s).node) && TPAR(RS(s).node) == RS(s).parent && TWF(RS(s).node) && ORIENTED(TPED(RS(s).node)))))
+/* slot i of the adjacency table lies in the row of basin b and holds a tree edge incident to b (postcondition of the CSR phase at (b, i)) */
+#define CSR_SLOT(b, i) ((i) < m_nodes_adjacency_n && m_nodes_adjacency[(i)] < m_edges_n && ECHILD(m_nodes_adjacency[(i)]) != SIZE_MAX \
+    && EWF(m_nodes_adjacency[(i)]) && ((b) == ECHILD(m_nodes_adjacency[(i)]) || (b) == TPAR(ECHILD(m_nodes_adjacency[(i)]))))
+/* the parent edge of basin b sits at slot wsp(b) in the row of its parent (postcondition of the CSR phase: every tree edge occurs in the
+ * rows of both its end points) */
+#define CSR_PEDGE(b) (!HASP(b) || (m_nodes_connects_ptr[TPAR(b)] <= TWSP(b) && TWSP(b) < m_nodes_connects_ptr[TPAR(b)] + m_nodes_connects_size[TPAR(b)] \
+    && TWSP(b) < m_nodes_adjacency_n && m_nodes_adjacency[TWSP(b)] == TPED(b)))
+/* ghost basin OGB is on the stack at the slot recorded for it */
+#define ONSTACK_B (OGS_B < m_reorder_stack_n && RS(OGS_B).node == OGB && RS(OGS_B).parent == TPAR(OGB))
+/* progress for the ghost basin OGB: once its parent has been popped, its parent edge is oriented and OGB itself has been popped or is stacked */
+#define W1 (!(HASP(OGB) && OGV_P) || (ORIENTED(TPED(OGB)) && (OGV_B || ONSTACK_B)))
+/* the root is popped first: it sits at slot 0 until it is popped */
+#define W0 (!(HASP(OGB) && TPAR(OGB) == m_root) || OGV_P || (m_reorder_stack_n >= 1 && RS(0).node == m_root && RS(0).parent == m_root))
+/* an edge is either as it was (o..) or has link and pass swapped together; weight and length never change */
+#define EDGE_REL(e, ol0, ol1, op0, op1, ope, opl) ((((L0(e) == (ol0) && L1(e) == (ol1) && P0(e) == (op0) && P1(e) == (op1)) \
+    || (L0(e) == (ol1) && L1(e) == (ol0) && P0(e) == (op1) && P1(e) == (op0))) && SAME_D(PE(e), ope) && SAME_D(PL(e), opl)) \
+    && (ECHILD(e) != SIZE_MAX || L0(e) == (ol0)))
+#endif
+"""
+DFS_SHAPE = OR_SHAPE + OR_LENS + r"""
+__CPROVER_requires(__CPROVER_is_fresh(TG, nbasins * sizeof(struct or_tnode)) && __CPROVER_is_fresh(ECH, m_edges_n * sizeof(size_t)))
+__CPROVER_requires(OGE < m_edges_n && OGS < m_reorder_stack_cap && OGB < nbasins)
+/* documented domain: an unmasked base-level node exists, so connect_basins chose a root basin (m_root == size_type(-1) would index
+ * m_parent_basins / m_nodes_connects_ptr out of bounds) */
+__CPROVER_requires(m_root < nbasins && !HASP(m_root))
+/* definition of the forest ghost at the ghost basin, its parent and the ghost edge; CSR postcondition at the ghost basin */
+__CPROVER_requires(TWF(OGB) && (!HASP(OGB) || TWF(TPAR(OGB))) && EWF(OGE) && CSR_PEDGE(OGB))
+"""
+# state that holds between two pops (for the ghost slot OGS, the ghost edge OGE, the ghost basin OGB); %(rel)s relates OGE to its value at entry
+DFS_STATE = ["OGS >= m_reorder_stack_n || SE(OGS)",
+             "ECHILD(OGE) == SIZE_MAX || LINKS(OGE)",
+             "%(rel)s",
+             "W1", "W0",
+             "m_reorder_stack_n <= m_reorder_stack_cap && m_pass_stack_n <= m_pass_stack_cap && (!m_keep_order || m_parent_basins_n == nbasins)"]
+REL_OLD = "EDGE_REL(OGE, OLD(L0(OGE)), OLD(L1(OGE)), OLD(P0(OGE)), OLD(P1(OGE)), OLD(PE(OGE)), OLD(PL(OGE)))"
+REL_GH = "EDGE_REL(OGE, gh_e.link[0], gh_e.link[1], gh_e.pass[0], gh_e.pass[1], gh_e.pass_elevation, gh_e.pass_length)"
+DFS_ASSIGNS = ("__CPROVER_object_whole(m_edges), __CPROVER_object_whole(m_reorder_stack), m_reorder_stack_n, __CPROVER_object_whole(m_pass_stack), "
+               "m_pass_stack_n, __CPROVER_object_whole(m_parent_basins), OGV_P, OGV_B, OGS_B")
+
+orient_pop = Unit(
+    name="orient_pop", file=BG_H, anchor=OR_ANCHOR, inner=POP_INNER,
+    sig="void orient_pop(%s%s)" % (OR_PARAMS, TG_PARAMS), pre=DFS_PRE,
+    rules=[RB(VISIT_INNER.replace(r"\s*\{", ""),
+              "{ /* instances: CSR postcondition at slot i, room below the ghost capacities (model artefact), induction hypothesis `the end points "
+              "of a tree edge are its child and that child's parent` at the edge read */\n"
+              "  FSL_PRE(CSR_SLOT(node, i) && LINKS(m_nodes_adjacency[i])); FSL_PRE(m_reorder_stack_n < m_reorder_stack_cap && m_pass_stack_n < m_pass_stack_cap);\n"
+              "  const size_t or_n0_ = m_reorder_stack_n;\n"
+              "  orient_visit(%s, node, parent, pass_elevation, parent_pass_elevation, i);\n"
+              "  /* ghost: remember where the ghost basin was stacked */ if (m_reorder_stack_n > or_n0_ && RS(or_n0_).node == OGB) OGS_B = or_n0_; }" % OR_ARGS)] + OR_VOCAB,
+    body_prefix=OR_LOCALS + "    /* ghost: value of the ghost edge at entry (a loop invariant cannot use __CPROVER_old) */ const struct fsl_edge gh_e = m_edges[OGE];\n",
+    body_suffix="    /* ghost: this basin has been popped */ if (HASP(OGB) && node == TPAR(OGB)) OGV_P = 1; if (node == OGB) OGV_B = 1;\n",
+    contract=DFS_SHAPE + r"""
+/* a non-empty stack; induction-hypothesis instance of the stack-element invariant at the slot that is popped (DESIGN 3.9) */
+__CPROVER_requires(m_reorder_stack_n >= 1 && SE(m_reorder_stack_n - 1))
+""" + "".join("__CPROVER_requires(%s)\n" % (c % dict(rel="1")) for c in DFS_STATE) + r"""
+__CPROVER_assigns(""" + DFS_ASSIGNS + r""")
+""" + "".join("__CPROVER_ensures(%s)\n" % (c % dict(rel=REL_OLD)) for c in DFS_STATE) + r"""
+__CPROVER_ensures(m_reorder_stack_n + 1 >= OLD(m_reorder_stack_n))
+""",
+    loops={0: r"""
+__CPROVER_assigns(i, """ + DFS_ASSIGNS + r""")
+__CPROVER_loop_invariant(node < nbasins && parent < nbasins && m_nodes_connects_ptr[node] <= i)
+""" + "".join("__CPROVER_loop_invariant(%s)\n" % (c % dict(rel=REL_GH)) for c in DFS_STATE if c not in ("W1", "W0")) + r"""
+/* while the parent of the ghost basin is being processed: the slots before i have been visited */
+__CPROVER_loop_invariant(!(HASP(OGB) && (OGV_P || (node == TPAR(OGB) && TWSP(OGB) < i))) || (ORIENTED(TPED(OGB)) && (OGV_B || node == OGB || ONSTACK_B)))
+__CPROVER_loop_invariant(!(HASP(OGB) && TPAR(OGB) == m_root) || OGV_P || node == m_root || (m_reorder_stack_n >= 1 && RS(0).node == m_root && RS(0).parent == m_root))
+"""},
+)
+
+orient_dfs = Unit(
+    name="orient_dfs", file=BG_H, anchor=OR_ANCHOR, sig="void orient_dfs(%s%s)" % (OR_PARAMS, TG_PARAMS), pre=DFS_PRE,
+    rules=[CUT_KEEP_DFS,
+           RB(POP_INNER.replace(r"\s*\{", ""),
+              "{ /* induction-hypothesis instance of the stack-element invariant at the slot that is popped (DESIGN 3.9) */\n"
+              "  FSL_PRE(SE(m_reorder_stack_n - 1)); orient_pop(%s%s); }" % (OR_ARGS, TG_ARGS))] + OR_VOCAB,
+    body_prefix=OR_LOCALS + "    /* ghost: value of the ghost edge at entry */ const struct fsl_edge gh_e = m_edges[OGE];\n",
+    contract=DFS_SHAPE.replace(OR_LENS, r"""
+__CPROVER_requires(m_nodes_connects_size_n == nbasins && m_nodes_connects_ptr_n == nbasins && m_nodes_adjacency_n <= m_nodes_adjacency_cap)
+/* NOTHING is required of the contents or lengths of m_reorder_stack, m_pass_stack, m_parent_basins (C09: scratch state of earlier calls) */
+__CPROVER_requires(m_reorder_stack_n <= m_reorder_stack_cap && m_pass_stack_n <= m_pass_stack_cap && m_parent_basins_n <= m_parent_basins_cap)
+""") + r"""
+/* ghost: nothing has been popped yet; the ghost edge is a tree edge whose end points are its child and that child's parent, or no tree edge */
+__CPROVER_requires(!OGV_P && !OGV_B && (ECHILD(OGE) == SIZE_MAX || LINKS(OGE)) && OGB2 < m_parent_basins_cap)
+__CPROVER_assigns(m_parent_basins_n, """ + DFS_ASSIGNS + r""")
+/* C15: when the parse ends, the parent edge of every basin whose parent has been popped is oriented away from the root and the basin itself
+ * has been popped; the root has been popped (so its children have) */
+__CPROVER_ensures(m_reorder_stack_n == 0)
+__CPROVER_ensures((HASP(OGB) && (OGV_P || TPAR(OGB) == m_root)) ==> (OGV_P && OGV_B && ORIENTED(TPED(OGB))))
+/* the end points of every tree edge stay what they were; link and pass are swapped together; weight, length and the edges outside the tree are untouched */
+__CPROVER_ensures(ECHILD(OGE) == SIZE_MAX || LINKS(OGE))
+__CPROVER_ensures(""" + REL_OLD + r""")
+""",
+    loops={0: r"""
+__CPROVER_assigns(""" + DFS_ASSIGNS + r""")
+""" + "".join("__CPROVER_loop_invariant(%s)\n" % (c % dict(rel=REL_GH)) for c in DFS_STATE)},
+)
+
+H_DFS = H_OR.replace("    struct fsl_rs *m_reorder_stack;", "    struct fsl_rs *m_reorder_stack; const struct or_tnode *TG; const size_t *ECH;\n"
+                     "    OGV_P = nondet_bool(); OGV_B = nondet_bool(); OGS_B = nondet_size_t();")
+NOPO = ["--pointer-overflow-check"]
+G_POP = Group(
+    name="orient.pop", units=[orient_visit, orient_pop], extra_c=[MODEL_H, OR_H],
+    harness=H_DFS % dict(fn="orient_pop", call="orient_pop(%s%s)" % (OR_ARGS, TG_ARGS), pre=""),
+    entry="h_orient_pop", enforce="orient_pop", replace=["orient_visit"], loop_contracts=True, backend="cadical", timeout=1800, min_obligations=30,
+    no_checks=NOPO,
+    clause="orient_edges, one iteration of the depth-first `while` (pop one basin, visit its row of the adjacency table; the inner `for` is closed by a "
+           "loop contract over the visit's contract): the stack-element invariant, `end points of a tree edge = child and its parent`, the swap-together / "
+           "untouched relation of an arbitrary edge to its value at entry, and the progress invariant of an arbitrary basin are preserved")
+G_DFS = Group(
+    name="orient.dfs", units=[orient_pop, orient_dfs], extra_c=[MODEL_H, OR_H],
+    harness=H_DFS % dict(fn="orient_dfs", call="orient_dfs(%s%s)" % (OR_ARGS, TG_ARGS), pre=""),
+    entry="h_orient_dfs", enforce="orient_dfs", replace=["orient_pop", "fsl_vsz_resize_o"], loop_contracts=True, backend="cadical", timeout=1800, min_obligations=30,
+    no_checks=NOPO,
+    clause="orient_edges from `m_reorder_stack.reserve` to the end, on ARBITRARY pre-state of the stack and of the m_keep_order scratch vectors: when the "
+           "parse ends (empty stack) every basin whose parent was popped has been popped itself and its parent edge is stored as (parent, basin), the root "
+           "was popped; edges keep their end points, link and pass are swapped together, weights / lengths / non-tree edges are untouched")
+
+# --------------------------------------------------------------------------- (a) CSR construction: counts, prefix pointers, adjacency fill
+# ghosts: OGB / OGB2 arbitrary basins, OGI an arbitrary slot of the adjacency table, OGT an arbitrary slot of m_tree, OW the slot at which the
+# edge of tree slot OGT was stored in the row of OGB (ghost witness, written by ghost code), and the harness-owned read-only table
+#   CUM[t] = number of end points equal to OGB among the edges of tree slots [0, t)      (t = 0 .. m_tree_n)
+# whose defining recursion is instantiated where a tree slot is read.
+CSR_PARAMS = ", const size_t *ECH, const size_t *CUM"
+CSR_ARGS = ", ECH, CUM"
+CSR_PRE = r"""
+#ifndef FSL_ORIENT_CSR
+#define FSL_ORIENT_CSR
+size_t OW;     /* ghost witness slot */
+size_t CUMN;   /* length of the ghost table CUM (>= m_tree_n + 1) */
+#define ECHILD_(e) (ECH[(e)])
+#define CS(b) (m_nodes_connects_size[(b)])
+#define CP(b) (m_nodes_connects_ptr[(b)])
+#define ADJ(i) (m_nodes_adjacency[(i)])
+#define TR(t) (m_tree[(t)])
+#define INC(e) ((size_t) (L0(e) == OGB) + (size_t) (L1(e) == OGB))   /* how many end points of edge e are the ghost basin */
+#define DEGB (CUM[m_tree_n])                                          /* degree of the ghost basin in the tree */
+/* input well-formedness of a tree entry: an edge index whose end points are two DIFFERENT basins (producer compute_tree_*: an edge enters
+ * the tree iff its end points are in different classes; with equal end points the fill loop would leave a slot of the row unwritten);
+ * ECH marks the tree edges */
+#define TREE_WF(e) ((e) < m_edges_n && L0(e) < nbasins && L1(e) < nbasins && L0(e) != L1(e) && ECHILD_(e) != SIZE_MAX)
+/* definition of CUM at slot t, and its consequence `CUM is non-decreasing` */
+#define CUM_DEF(t) (CUM[(t) + 1] == CUM[(t)] + INC(TR(t)) && CUM[(t) + 1] <= DEGB)
+#define ROW_END(b) ((b) + 1 < nbasins ? CP((b) + 1) : m_nodes_adjacency_n)
+/* facts about the row of basin b that the count and prefix loops establish for every basin (proved for the ghost basin, instantiated at the
+ * end points of the edge read): the row is not full while an incident edge is still to be stored; rows end inside the table */
+#define ROW_ROOM(b) (CP(b) + CS(b) < ROW_END(b) && ROW_END(b) <= m_nodes_adjacency_n)
+/* rows of different basins do not overlap (proved for the ghost pair OGB < OGB2 by the prefix loop) */
+#define ROW_DISJ(a, b) (((a) >= (b) || ROW_END(a) <= CP(b)) && ((b) >= (a) || ROW_END(b) <= CP(a)))
+/* the filled part of the row of the ghost basin */
+#define IN_ROW(i) (CP(OGB) <= (i) && (i) < CP(OGB) + CS(OGB))
+#define INCIDENT(e) (L0(e) == OGB || L1(e) == OGB)
+#endif
+"""
+CSR_OBJS = r"""
+__CPROVER_requires(1 <= nbasins && nbasins <= FSL_BASIN_NMAX && OGB < nbasins && OGB2 < nbasins && OGI < m_nodes_adjacency_cap && OGT < m_tree_cap)
+__CPROVER_requires(1 <= m_edges_n && m_edges_n <= FSL_BASIN_NMAX && __CPROVER_is_fresh(m_edges, m_edges_n * sizeof(struct fsl_edge)))
+__CPROVER_requires(nbasins <= m_nodes_connects_cap && m_nodes_connects_cap <= FSL_BASIN_NMAX)
+__CPROVER_requires(__CPROVER_is_fresh(m_nodes_connects_size, m_nodes_connects_cap * sizeof(size_t)))
+"""
+CSR_OBJS2 = r"""
+__CPROVER_requires(__CPROVER_is_fresh(m_nodes_connects_ptr, m_nodes_connects_cap * sizeof(size_t)))
+__CPROVER_requires(1 <= m_nodes_adjacency_cap && m_nodes_adjacency_cap <= FSL_BASIN_NMAX && __CPROVER_is_fresh(m_nodes_adjacency, m_nodes_adjacency_cap * sizeof(size_t)))
+"""
+CSR_OBJS3 = r"""
+__CPROVER_requires(1 <= m_tree_cap && m_tree_cap <= FSL_BASIN_NMAX && m_tree_n <= m_tree_cap && __CPROVER_is_fresh(m_tree, m_tree_cap * sizeof(size_t)))
+__CPROVER_requires(m_tree_n + 1 <= CUMN && CUMN <= FSL_BASIN_NMAX + 1 && __CPROVER_is_fresh(CUM, CUMN * sizeof(size_t)) && __CPROVER_is_fresh(ECH, m_edges_n * sizeof(size_t)))
+/* ghost capacity of the adjacency table: two slots per tree edge (model artefact: the real vector reallocates) */
+__CPROVER_requires(m_tree_n <= m_nodes_adjacency_cap && 2 * m_tree_n <= m_nodes_adjacency_cap)
+"""
+FIRST_TREE_LOOP = r"\A.*?for \(size_type l_id : m_tree\)\s*\{"
+LAST_TREE_LOOP = r"\A.*for \(size_type l_id : m_tree\)\s*\{"
+orient_count = Unit(
+    name="orient_count", file=BG_H, anchor=OR_ANCHOR, inner=FIRST_TREE_LOOP,
+    sig="void orient_count(%s%s, size_t l_id)" % (OR_PARAMS, CSR_PARAMS), pre=OR_PRE + CSR_PRE, rules=OR_VOCAB, body_prefix=OR_LOCALS,
+    contract=CSR_OBJS + r"""
+__CPROVER_requires(m_nodes_connects_size_n == nbasins && l_id < m_edges_n && L0(l_id) < nbasins && L1(l_id) < nbasins)
+__CPROVER_assigns(m_nodes_connects_size[L0(l_id)], m_nodes_connects_size[L1(l_id)])
+/* one more incident edge for each end point, nothing else */
+__CPROVER_ensures(CS(OGB) == OLD(CS(OGB)) + INC(l_id))
+""")
+orient_fill = Unit(
+    name="orient_fill", file=BG_H, anchor=OR_ANCHOR, inner=LAST_TREE_LOOP,
+    sig="void orient_fill(%s%s, size_t l_id)" % (OR_PARAMS, CSR_PARAMS), pre=OR_PRE + CSR_PRE, rules=OR_VOCAB, body_prefix=OR_LOCALS,
+    contract=CSR_OBJS + CSR_OBJS2 + r"""
+__CPROVER_requires(m_nodes_connects_size_n == nbasins && m_nodes_connects_ptr_n == nbasins && m_nodes_adjacency_n <= m_nodes_adjacency_cap)
+__CPROVER_requires(l_id < m_edges_n && L0(l_id) < nbasins && L1(l_id) < nbasins && L0(l_id) != L1(l_id))
+/* C08: the next free slot of the row of each end point lies inside the adjacency table */
+__CPROVER_requires(CP(L0(l_id)) <= FSL_BASIN_NMAX && CS(L0(l_id)) <= FSL_BASIN_NMAX && CP(L0(l_id)) + CS(L0(l_id)) < m_nodes_adjacency_n)
+__CPROVER_requires(CP(L1(l_id)) <= FSL_BASIN_NMAX && CS(L1(l_id)) <= FSL_BASIN_NMAX && CP(L1(l_id)) + CS(L1(l_id)) < m_nodes_adjacency_n)
+__CPROVER_assigns(m_nodes_adjacency[CP(L0(l_id)) + CS(L0(l_id))], m_nodes_adjacency[CP(L1(l_id)) + CS(L1(l_id))],
+                  m_nodes_connects_size[L0(l_id)], m_nodes_connects_size[L1(l_id)])
+/* the edge is appended to the rows of BOTH its end points */
+__CPROVER_ensures(ADJ(CP(L0(l_id)) + OLD(CS(L0(l_id)))) == l_id && ADJ(CP(L1(l_id)) + OLD(CS(L1(l_id)))) == l_id)
+__CPROVER_ensures(CS(L0(l_id)) == OLD(CS(L0(l_id))) + 1 && CS(L1(l_id)) == OLD(CS(L1(l_id))) + 1)
+""")
+
+CSR_P1 = "(!(OGI < m_nodes_adjacency_n && IN_ROW(OGI)) || (ADJ(OGI) < m_edges_n && ECHILD_(ADJ(OGI)) != SIZE_MAX && INCIDENT(ADJ(OGI))))"
+CSR_P2 = "(!(OGT < %s && TR(OGT) < m_edges_n && INCIDENT(TR(OGT))) || (OW < m_nodes_adjacency_n && IN_ROW(OW) && ADJ(OW) == TR(OGT)))"
+CSR_ROWS = ("(CP(OGB) + DEGB <= m_nodes_adjacency_n && (OGB + 1 < nbasins ? CP(OGB + 1) == CP(OGB) + DEGB : CP(OGB) + DEGB == m_nodes_adjacency_n) "
+            "&& (OGB >= OGB2 || CP(OGB) + DEGB <= CP(OGB2)) && m_nodes_adjacency_n <= 2 * m_tree_n && CP(OGB) <= 2 * m_tree_n)")
+orient_csr = Unit(
+    name="orient_csr", file=BG_H, anchor=OR_ANCHOR, sig="void orient_csr(%s%s)" % (OR_PARAMS, CSR_PARAMS), pre=OR_PRE + CSR_PRE,
+    rules=[CUT_KEEP_CSR,
+           R(r"\A(.*?)for \(size_type l_id : m_tree\)", r"\1for (size_t t1_ = 0; t1_ < m_tree_n; ++t1_)", 1, flags=_re.S),
+           R(r"for \(size_type l_id : m_tree\)", "for (size_t t2_ = 0; t2_ < m_tree_n; ++t2_)", 1),
+           # the element read instantiates the input well-formedness of the tree entry and the definition of CUM at the slot
+           RB(r"for \(size_t t1_ = 0; t1_ < m_tree_n; \+\+t1_\)",
+              "{ const size_t l_id_ = m_tree[FSL_IDX1(t1_, m_tree_n)]; FSL_PRE(TREE_WF(l_id_) && CUM_DEF(t1_)); orient_count(%s%s, l_id_); }" % (OR_ARGS, CSR_ARGS)),
+           RB(r"for \(size_t t2_ = 0; t2_ < m_tree_n; \+\+t2_\)",
+              "{ const size_t l_id_ = m_tree[FSL_IDX1(t2_, m_tree_n)]; FSL_PRE(TREE_WF(l_id_) && CUM_DEF(t2_));\n"
+              "  /* proved for the ghost basin BEFORE the same fact is instantiated at the end points of the edge */\n"
+              "  __CPROVER_assert(!INCIDENT(l_id_) || (CP(OGB) + CS(OGB) < ROW_END(OGB) && ROW_END(OGB) <= m_nodes_adjacency_n), \"CSR: the row of the ghost basin is not full while an incident edge is still to be stored\");\n"
+              "  FSL_PRE(ROW_ROOM(L0(l_id_)) && ROW_ROOM(L1(l_id_)) && ROW_DISJ(L0(l_id_), OGB) && ROW_DISJ(L1(l_id_), OGB) && CP(L0(l_id_)) <= 2 * m_tree_n && CP(L1(l_id_)) <= 2 * m_tree_n);\n"
+              "  /* ghost witness: where the edge of the ghost tree slot goes in the row of the ghost basin */ if (t2_ == OGT && INCIDENT(l_id_)) OW = CP(OGB) + CS(OGB);\n"
+              "  orient_fill(%s%s, l_id_); }" % (OR_ARGS, CSR_ARGS)),
+           # prefix loop: instance of `prefix sums of the degree counts are bounded by their total 2 * |tree|` (double counting, not mechanised)
+           R(r"(for \(size_t i = [^{}]*\)\s*)\{", r"\1{ FSL_PRE(!(1 <= i && i < nbasins) || (m_nodes_connects_ptr[i - 1] + m_nodes_connects_size[i - 1] <= 2 * m_tree_n "
+             r"&& m_nodes_connects_size[i] <= 2 * m_tree_n - (m_nodes_connects_ptr[i - 1] + m_nodes_connects_size[i - 1])));", 1),
+           ] + OR_VOCAB,
+    contract=CSR_OBJS + CSR_OBJS2 + CSR_OBJS3 + r"""
+/* NOTHING is required of the contents or lengths of m_nodes_connects_size / _ptr / m_nodes_adjacency (C09: scratch state of earlier calls) */
+__CPROVER_requires(m_nodes_connects_size_n <= m_nodes_connects_cap && m_nodes_connects_ptr_n <= m_nodes_connects_cap && m_nodes_adjacency_n <= m_nodes_adjacency_cap)
+/* definition of the ghost count table at its first entry; the ghost tree slot holds a tree entry */
+__CPROVER_requires(CUM[0] == 0 && (OGT >= m_tree_n || TREE_WF(TR(OGT))))
+__CPROVER_assigns(m_nodes_connects_size_n, m_nodes_connects_ptr_n, m_nodes_adjacency_n, OW, __CPROVER_object_whole(m_nodes_connects_size),
+                  __CPROVER_object_whole(m_nodes_connects_ptr), __CPROVER_object_whole(m_nodes_adjacency))
+__CPROVER_ensures(m_nodes_connects_size_n == nbasins && m_nodes_connects_ptr_n == nbasins && m_nodes_adjacency_n <= m_nodes_adjacency_cap)
+/* rows: the row of basin b is [ptr[b], ptr[b] + size[b]), it has as many slots as b has incident tree edges, rows follow one another and end inside the table (C08) */
+__CPROVER_ensures(CS(OGB) == DEGB && %(ROWS)s)
+/* every slot of the row holds a tree edge incident to the basin */
+__CPROVER_ensures(%(P1)s)
+/* every tree edge occurs in the row of each of its end points */
+__CPROVER_ensures(%(P2)s)
+""" % dict(ROWS=CSR_ROWS, P1=CSR_P1, P2=CSR_P2 % "m_tree_n"),
+    loops={
+        0: r"""
+__CPROVER_assigns(t1_, __CPROVER_object_whole(m_nodes_connects_size))
+__CPROVER_loop_invariant(t1_ <= m_tree_n && m_nodes_connects_size_n == nbasins && m_nodes_connects_ptr_n == nbasins)
+__CPROVER_loop_invariant(CS(OGB) == CUM[t1_] && CUM[t1_] <= 2 * t1_)
+__CPROVER_decreases(m_tree_n - t1_)
+""",
+        1: r"""
+__CPROVER_assigns(i, __CPROVER_object_whole(m_nodes_connects_size), __CPROVER_object_whole(m_nodes_connects_ptr))
+__CPROVER_loop_invariant(1 <= i && i <= nbasins && CP(0) == 0 && DEGB <= 2 * m_tree_n)
+/* counts below i - 1 are reset, the others still hold the degree; pointers up to i - 1 are prefix sums */
+__CPROVER_loop_invariant(OGB + 1 < i ? (CS(OGB) == 0 && CP(OGB + 1) == CP(OGB) + DEGB) : CS(OGB) == DEGB)
+__CPROVER_loop_invariant(CP(i - 1) + CS(i - 1) <= 2 * m_tree_n && (OGB >= i || CP(OGB) + DEGB <= CP(i - 1) + CS(i - 1)))
+__CPROVER_loop_invariant(!(OGB < OGB2 && OGB2 < i) || CP(OGB) + DEGB <= CP(OGB2))
+__CPROVER_decreases(nbasins - i)
+""",
+        2: r"""
+__CPROVER_assigns(t2_, OW, __CPROVER_object_whole(m_nodes_connects_size), __CPROVER_object_whole(m_nodes_adjacency))
+__CPROVER_loop_invariant(t2_ <= m_tree_n && CS(OGB) == CUM[t2_] && CUM[t2_] <= DEGB)
+__CPROVER_loop_invariant(%(P1)s)
+__CPROVER_loop_invariant(%(P2)s)
+__CPROVER_decreases(m_tree_n - t2_)
+""" % dict(P1=CSR_P1, P2=CSR_P2 % "t2_")},
+)
+
+H_CSR = H_OR.replace("    struct fsl_rs *m_reorder_stack;", "    struct fsl_rs *m_reorder_stack; const size_t *ECH, *CUM; OW = nondet_size_t(); CUMN = nondet_size_t();")
+G_COUNT = Group(
+    name="orient.csr.count", units=[orient_count], extra_c=[MODEL_H, OR_H],
+    harness=H_CSR % dict(fn="orient_count", call="orient_count(%s%s, nondet_size_t())" % (OR_ARGS, CSR_ARGS), pre=""),
+    entry="h_orient_count", enforce="orient_count", backend="cadical", timeout=600, min_obligations=10, no_checks=NOPO,
+    clause="orient_edges, count loop, one tree edge: the incident-edge counts of exactly its two end points grow by one (index < basins_count())")
+G_FILL = Group(
+    name="orient.csr.fill", units=[orient_fill], extra_c=[MODEL_H, OR_H],
+    harness=H_CSR % dict(fn="orient_fill", call="orient_fill(%s%s, nondet_size_t())" % (OR_ARGS, CSR_ARGS), pre=""),
+    entry="h_orient_fill", enforce="orient_fill", backend="cvc5", timeout=600, min_obligations=10, no_checks=NOPO,
+    clause="orient_edges, fill loop, one tree edge: its index is stored at the next free slot of the rows of BOTH end points and both fill counts grow "
+           "by one; nothing else is written; the two slots are inside the adjacency table")
+G_CSR = Group(
+    name="orient.csr.loops", units=[orient_count, orient_fill, orient_csr], extra_c=[MODEL_H, OR_H],
+    harness=H_CSR % dict(fn="orient_csr", call="orient_csr(%s%s)" % (OR_ARGS, CSR_ARGS), pre=""),
+    entry="h_orient_csr", enforce="orient_csr", replace=["orient_count", "orient_fill", "fsl_vsz_resize_o", "fsl_vsz_fill_o", "fsl_vsz_resize_adj"],
+    loop_contracts=True, backend="cadical", timeout=1800, min_obligations=30, no_checks=NOPO,
+    clause="orient_edges up to `m_reorder_stack.reserve` (CSR construction) on ARBITRARY pre-state of the three scratch vectors: rows are consecutive, "
+           "as long as the basin's degree in the tree and end inside the table; every slot of a row holds a tree edge incident to the basin; every tree "
+           "edge occurs in the rows of both its end points")
 
 # --------------------------------------------------------------------------- BOUNDED: the whole function on all trees with <= NB_B basins
 import os as _os
@@ -252,11 +566,19 @@ G_OR_BOUNDED = Group(
 from spec.basin import SB_VOCAB
 
 CV_ANCHOR = r"::\s*update_routes_sinks_carve\("
-# coff, K: the segment of the ghost chain table that belongs to the edge (ghost parameters added to the C signature)
+# ghost tables (harness-owned, read-only; plain size_t arrays -- arrays of records cost the back ends far more):
+#   indexed by grid node x:
+#     NGB[x]  graph_impl.basins()(x), the basin label of x (a real table of the flow graph; the function never reads it, the spec does)
+#     NGR[x]  rank: number of receiver steps (receivers as they are when update_routes_sinks_carve is entered) from x to the pit of its basin
+#     NGP[x]  for a node on the old receiver chain of the tree edge flowing into its basin: its position on that chain
+#   indexed by chain position:
+#     NGC[.]  the old receiver chains of all tree edges with a pass, one after the other: the chain of an edge is
+#             NGC[off .. off + k] = inflow pass node, its receiver, ..., the pit
+# cv_off, cv_k: the segment of NGC that belongs to the edge (ghost parameters added to the C signature of the step)
 CV_PARAMS = ("size_t gsize, size_t nbasins, size_t *m_receivers, double *m_receivers_distance, const size_t *pits, "
-             "const struct fsl_edge *m_edges, const size_t *m_tree, const struct cv_node *NG")
-CV_ARGS = "gsize, nbasins, m_receivers, m_receivers_distance, pits, m_edges, m_tree, NG"
-CV_GPARAMS = ", size_t cv_off, size_t cv_k"   # ghost parameters of the step: the segment of the chain table that belongs to its edge
+             "const struct fsl_edge *m_edges, const size_t *m_tree, const size_t *NGB, const size_t *NGR, const size_t *NGP, const size_t *NGC")
+CV_ARGS = "gsize, nbasins, m_receivers, m_receivers_distance, pits, m_edges, m_tree, NGB, NGR, NGP, NGC"
+CV_GPARAMS = ", size_t cv_off, size_t cv_k"
 
 
 def cv_pre():
@@ -267,6 +589,7 @@ def cv_pre():
 size_t SG;            /* ghost node */
 size_t GJ;            /* ghost position on the chain of the edge */
 size_t SGT, SE;       /* ghost slot of the tree and the edge index stored there */
+size_t NGN;           /* length of the ghost chain table NGC (>= gsize + 2) */
 #define SAME_D(x, y) ((x) == (y) || (isnan(x) && isnan(y)))
 #define OLD(x) __CPROVER_old(x)
 #define REC(x) m_receivers[(x)]
@@ -277,29 +600,28 @@ size_t SGT, SE;       /* ghost slot of the tree and the edge index stored there 
 #define E_BOUT(e) (m_edges[(e)].link[CV_OUTFLOW])
 #define E_PIT(e) (pits[E_BIN(e)])
 #define E_PL(e) (m_edges[(e)].pass_length)
-#define NB(x) (NG[(x)].basin)
-#define RANK(x) (NG[(x)].rank)
-#define POS(x) (NG[(x)].pos)
-#define COFF(e) cv_off
-#define CK(e) cv_k
-#define CHN(e, j) (NG[COFF(e) + (j)].ch)  /* the node at position j of the old receiver chain of edge e */
-/* input well-formedness of an oriented tree edge with a pass (producers: connect_basins, orient_edges, compute_basins): two different
- * basins, the pass nodes are grid nodes lying in the basin of their side, the pit is the outlet of the inflow basin; its chain segment
- * lies inside the ghost table */
-#define E_WF(e) (E_BIN(e) < nbasins && E_BOUT(e) < nbasins && E_BIN(e) != E_BOUT(e) && E_IN(e) < gsize && E_OUT(e) < gsize \
-    && NB(E_IN(e)) == E_BIN(e) && NB(E_OUT(e)) == E_BOUT(e) && E_PIT(e) < gsize && NB(E_PIT(e)) == E_BIN(e) \
-    && CK(e) < gsize && COFF(e) < gsize && COFF(e) + CK(e) < gsize)
-/* definition of the chain at position j: a grid node of the inflow basin whose rank (receiver steps to the pit) is k - j; position 0 is the
- * inflow pass node, position k the pit  --  THE PIT IS REACHED BY FOLLOWING RECEIVERS FROM THE INFLOW PASS NODE (basin contract) */
-#define CV_CWF(e, j) ((j) > CK(e) || (CHN(e, j) < gsize && NB(CHN(e, j)) == E_BIN(e) && POS(CHN(e, j)) == (j) \
-    && ((j) != 0 || CHN(e, j) == E_IN(e)) && ((j) != CK(e) || CHN(e, j) == E_PIT(e))))
-/* ... and consecutive chain nodes are linked by the receivers as they are when the function is entered (the pit is its own receiver) */
-#define CV_ORIG(e, j) ((j) > CK(e) || REC(CHN(e, j)) == CHN(e, (j) < CK(e) ? (j) + 1 : (j)))
-/* x lies on the chain of e: it is the chain node at the position its rank names */
-#define ONCH(e, x) (NB(x) == E_BIN(e) && POS(x) <= CK(e) && CHN(e, POS(x)) == (x))
+#define NB(x) (NGB[(x)])
+#define RANK(x) (NGR[(x)])
+#define POS(x) (NGP[(x)])
+#define CHN(j) (NGC[cv_off + (j)])  /* the node at position j of the old receiver chain of the edge */
+#define CK cv_k
+/* input well-formedness of an oriented tree edge with a pass (producers: connect_basins, orient_edges, compute_basins): the pass nodes are
+ * grid nodes, the inflow basin has a pit; the chain segment of the edge lies inside the ghost table */
+#define E_WF(e) (E_BIN(e) < nbasins && E_IN(e) < gsize && E_OUT(e) < gsize && E_PIT(e) < gsize && CK < gsize && cv_off < gsize && cv_off + CK < gsize)
+/* ... the two basins differ, each pass node lies in the basin of its side, the pit is the outlet of the inflow basin */
+#define E_WFB(e) (E_BOUT(e) < nbasins && E_BIN(e) != E_BOUT(e) && NB(E_IN(e)) == E_BIN(e) && NB(E_OUT(e)) == E_BOUT(e) && NB(E_PIT(e)) == E_BIN(e))
+/* definition of the chain at position j: a grid node that knows its position; position 0 is the inflow pass node, position k the pit
+ * --  THE PIT IS REACHED BY FOLLOWING RECEIVERS FROM THE INFLOW PASS NODE (basin contract) */
+#define CV_CWF(e, j) ((j) > CK || (CHN(j) < gsize && POS(CHN(j)) == (j) && ((j) != 0 || CHN(j) == E_IN(e)) && ((j) != CK || CHN(j) == E_PIT(e))))
+/* ... consecutive chain nodes are linked by the receivers as they are when the function is entered (the pit is its own receiver) */
+#define CV_ORIG(e, j) ((j) > CK || REC(CHN(j)) == CHN((j) < CK ? (j) + 1 : (j)))
+/* ... and chain nodes lie in the inflow basin, rank (receiver steps to the pit) k - j */
+#define CV_CWFB(e, j) ((j) > CK || (NB(CHN(j)) == E_BIN(e) && RANK(CHN(j)) + (j) == CK))
+/* x lies on the chain of the edge: it is the chain node at the position it names */
+#define ONCH(x) (POS(x) <= CK && CHN(POS(x)) == (x))
 /* C01 inside the re-routed basin: a potential that strictly decreases along the NEW receivers until the inflow pass node (which drains
  * out of the basin): chain nodes count the steps back up the reversed chain, the others first walk down to the chain */
-#define PHI(e, x) (ONCH(e, x) ? POS(x) : CK(e) + 1 + RANK(x))
+#define PHI(x) (ONCH(x) ? POS(x) : CK + 1 + RANK(x))
 /* position of the walk */
 #define CJ POS(current_node)
 /* receivers(x, 0) read inside the `while` (x is the chain node after current_node): input instances of the chain definition at the next two
@@ -309,21 +631,24 @@ size_t SGT, SE;       /* ghost slot of the tree and the edge index stored there 
         const size_t cv_x_ = (x); \
         const size_t cv_v_ = receivers(cv_x_, 0); \
         FSL_PRE(CV_CWF(edge_idx, CJ + 1) && CV_CWF(edge_idx, CJ + 2)); \
-        FSL_PRE(!(ONCH(edge_idx, cv_x_) && POS(cv_x_) > CJ) \
-                || cv_v_ == CHN(edge_idx, POS(cv_x_) < CK(edge_idx) ? POS(cv_x_) + 1 : CK(edge_idx))); \
+        FSL_PRE(!(ONCH(cv_x_) && POS(cv_x_) > CJ) || cv_v_ == CHN(POS(cv_x_) < CK ? POS(cv_x_) + 1 : CK)); \
         cv_v_; \
     })
 #endif
 """).replace("CV_OUTFLOW", str(c["outflow"])).replace("CV_INFLOW", str(c["inflow"]))
 
 
-CV_SHAPE = r"""
+def cv_shape(basin):
+    return r"""
 __CPROVER_requires(0 < gsize && gsize <= FSL_BASIN_NMAX && 0 < nbasins && nbasins <= gsize && gsize + 2 <= NGN && NGN <= FSL_BASIN_NMAX + 2)
 __CPROVER_requires(0 < m_edges_n && m_edges_n <= FSL_BASIN_NMAX && 0 < m_tree_cap && m_tree_n <= m_tree_cap && m_tree_cap <= FSL_BASIN_NMAX)
 __CPROVER_requires(__CPROVER_is_fresh(m_receivers, gsize * sizeof(size_t)) && __CPROVER_is_fresh(m_receivers_distance, gsize * sizeof(double)))
-__CPROVER_requires(__CPROVER_is_fresh(pits, nbasins * sizeof(size_t)) && __CPROVER_is_fresh(NG, NGN * sizeof(struct cv_node)))
-__CPROVER_requires(__CPROVER_is_fresh(m_edges, m_edges_n * sizeof(struct fsl_edge)))
-"""
+__CPROVER_requires(__CPROVER_is_fresh(pits, nbasins * sizeof(size_t)) && __CPROVER_is_fresh(m_edges, m_edges_n * sizeof(struct fsl_edge)))
+__CPROVER_requires(__CPROVER_is_fresh(NGP, gsize * sizeof(size_t)) && __CPROVER_is_fresh(NGC, NGN * sizeof(size_t)))
+""" + (r"""__CPROVER_requires(__CPROVER_is_fresh(NGB, gsize * sizeof(size_t)) && __CPROVER_is_fresh(NGR, gsize * sizeof(size_t)))
+""" if basin else "")
+
+
 # what the property demands of one re-routed basin, for the ghost chain position GJ (nodes A = chain[GJ], B = chain[GJ + 1]) and the ghost
 # node SG, split into lemmas (the union is the contract used by the caller).  `a`/`b` name the two chain nodes, `or`/`od`/`oda` the pre-state
 # values of REC(SG), DIST(SG), DIST(A) in the context (OLD(..) in a function contract, entry snapshots in a loop invariant)
@@ -331,37 +656,41 @@ CV_POST = {
     # receivers: the inflow pass node is re-routed to the outflow pass node; the old receiver chain below it is reversed (chain[j + 1] now
     # flows to chain[j]); no other receiver is written
     "rec": r"""(REC(E_IN(%(e)s)) == E_OUT(%(e)s)
- && (GJ < CK(%(e)s) ==> REC(%(b)s) == %(a)s)
- && (!ONCH(%(e)s, SG) ==> REC(SG) == %(or)s))""",
+ && (GJ < CK ==> REC(%(b)s) == %(a)s)
+ && (!ONCH(SG) ==> REC(SG) == %(or)s))""",
     # distances: pass_length at the inflow pass node; chain[j + 1] gets the OLD distance of chain[j]; nothing else is written
     "dist": r"""(SAME_D(DIST(E_IN(%(e)s)), E_PL(%(e)s))
- && (GJ < CK(%(e)s) ==> SAME_D(DIST(%(b)s), %(oda)s))
- && (!ONCH(%(e)s, SG) ==> SAME_D(DIST(SG), %(od)s)))""",
+ && (GJ < CK ==> SAME_D(DIST(%(b)s), %(oda)s))
+ && (!ONCH(SG) ==> SAME_D(DIST(SG), %(od)s)))""",
     # C01: inside the basin every node but the inflow pass node keeps a receiver in the basin with a strictly smaller potential (no cycle,
     # the inflow pass node is reached in finitely many steps), and the inflow pass node drains into ANOTHER basin
-    "drain": r"""(((NB(SG) == E_BIN(%(e)s) && SG != E_IN(%(e)s)) ==> (REC(SG) < gsize && NB(REC(SG)) == E_BIN(%(e)s) && PHI(%(e)s, REC(SG)) < PHI(%(e)s, SG)))
+    "drain": r"""(((NB(SG) == E_BIN(%(e)s) && SG != E_IN(%(e)s)) ==> (REC(SG) < gsize && NB(REC(SG)) == E_BIN(%(e)s) && PHI(REC(SG)) < PHI(SG)))
  && REC(E_IN(%(e)s)) < gsize && NB(REC(E_IN(%(e)s))) != E_BIN(%(e)s))""",
 }
-# instances, at the ghosts, of the chain definition, of the basin contract (a node of the basin other than the pit has its receiver in the
-# basin, one step nearer the pit) and of "the basin has not been re-routed yet"
+# instances, at the ghosts, of the chain definition and of "the basin has not been re-routed yet" ...
 CV_GHOST_REQ = r"""(
-    CV_CWF(%(e)s, 0) && CV_CWF(%(e)s, 1) && CV_CWF(%(e)s, CK(%(e)s)) && CV_CWF(%(e)s, GJ) && CV_CWF(%(e)s, GJ + 1)
+    CV_CWF(%(e)s, 0) && CV_CWF(%(e)s, 1) && CV_CWF(%(e)s, CK) && CV_CWF(%(e)s, GJ) && CV_CWF(%(e)s, GJ + 1)
  && CV_ORIG(%(e)s, 0) && CV_ORIG(%(e)s, GJ) && CV_ORIG(%(e)s, GJ + 1)
- && RANK(SG) < gsize && (NB(SG) != E_BIN(%(e)s) || POS(SG) > CK(%(e)s) || CV_CWF(%(e)s, POS(SG)))
- && ((ONCH(%(e)s, SG) && SG != E_IN(%(e)s)) ==> GJ + 1 == POS(SG))
- && ((NB(SG) == E_BIN(%(e)s) && SG != E_PIT(%(e)s)) ==> (REC(SG) < gsize && NB(REC(SG)) == E_BIN(%(e)s) && RANK(REC(SG)) + 1 == RANK(SG)
-      && (POS(REC(SG)) > CK(%(e)s) || CV_CWF(%(e)s, POS(REC(SG))))))
 )"""
-_GJK = "GJ < CK(edge_idx)"
+# ... and, for the `drain` lemma, of the basin contract: chain nodes lie in the inflow basin at rank k - position; a node of the basin other
+# than the pit has its receiver in the basin, one step nearer the pit; the ghost position is the one of the ghost node when that is a chain node
+CV_GHOST_REQ_B = r"""(
+    E_WFB(%(e)s) && CV_CWFB(%(e)s, 0) && CV_CWFB(%(e)s, CK) && CV_CWFB(%(e)s, GJ) && CV_CWFB(%(e)s, GJ + 1)
+ && RANK(SG) < gsize && (POS(SG) > CK || (CV_CWF(%(e)s, POS(SG)) && CV_CWFB(%(e)s, POS(SG))))
+ && ((ONCH(SG) && SG != E_IN(%(e)s)) ==> GJ + 1 == POS(SG))
+ && ((NB(SG) == E_BIN(%(e)s) && SG != E_PIT(%(e)s)) ==> (REC(SG) < gsize && NB(REC(SG)) == E_BIN(%(e)s) && RANK(REC(SG)) + 1 == RANK(SG)
+      && (POS(REC(SG)) > CK || CV_CWF(%(e)s, POS(REC(SG))))))
+)"""
+_GJK = "GJ < CK"
 CV_INV = {
     # the walk is at chain position CJ, next_node is the chain node after it (the pit's own receiver is the pit)
-    "walk": ["current_node < gsize && next_node < gsize && CJ <= CK(edge_idx) && CHN(edge_idx, CJ) == current_node "
-             "&& next_node == CHN(edge_idx, CJ < CK(edge_idx) ? CJ + 1 : CJ) && pit_inflow == E_PIT(edge_idx) && NB(current_node) == E_BIN(edge_idx)"],
+    "walk": ["current_node < gsize && next_node < gsize && CJ <= CK && CHN(CJ) == current_node "
+             "&& next_node == CHN(CJ < CK ? CJ + 1 : CJ) && pit_inflow == E_PIT(edge_idx)"],
     "rec": [  # chain nodes further down than the walk are not written yet; those above are reversed; nodes off the chain are never written
         "(%s && GJ + 1 > CJ) ==> REC(gh_b) == gh_rb" % _GJK,
         "REC(E_IN(edge_idx)) == E_OUT(edge_idx)",
         "(%s && GJ + 1 <= CJ) ==> REC(gh_b) == gh_a" % _GJK,
-        "!ONCH(edge_idx, SG) ==> REC(SG) == gh_r"],
+        "!ONCH(SG) ==> REC(SG) == gh_r"],
     "dist": [
         "(%s && GJ > CJ) ==> SAME_D(DIST(gh_a), gh_da)" % _GJK,
         "(%s && GJ + 1 > CJ) ==> SAME_D(DIST(gh_b), gh_db)" % _GJK,
@@ -369,17 +698,18 @@ CV_INV = {
         "(%s && GJ == CJ) ==> SAME_D(previous_dist, gh_da)" % _GJK,
         "SAME_D(DIST(E_IN(edge_idx)), E_PL(edge_idx))",
         "(%s && GJ + 1 <= CJ) ==> SAME_D(DIST(gh_b), gh_da)" % _GJK,
-        "!ONCH(edge_idx, SG) ==> SAME_D(DIST(SG), gh_d)"],
+        "!ONCH(SG) ==> SAME_D(DIST(SG), gh_d)"],
 }
 CV_LEMMAS = {"rec": (["rec"], ["rec"]), "dist": (["dist"], ["dist"]), "drain": (["rec"], ["drain"])}   # lemma -> (invariant parts, ensures parts)
-CV_ASSUMPTIONS = []
 
 
 def make_carve_step(lemma=None):
     invs, ens = (["rec", "dist"], ["rec", "dist", "drain"]) if lemma is None else CV_LEMMAS[lemma]
-    post = " && ".join(CV_POST[k] % dict(e="edge_idx", a="CHN(edge_idx, GJ)", b="CHN(edge_idx, GJ + 1)", oda="OLD(DIST(CHN(edge_idx, GJ)))",
+    basin = "drain" in ens
+    post = " && ".join(CV_POST[k] % dict(e="edge_idx", a="CHN(GJ)", b="CHN(GJ + 1)", oda="OLD(DIST(CHN(GJ)))",
                                          od="OLD(DIST(SG))", **{"or": "OLD(REC(SG))"}) for k in ens)
     inv = "".join("__CPROVER_loop_invariant(%s)\n" % c for part in ["walk"] + invs for c in CV_INV[part])
+    greq = CV_GHOST_REQ % dict(e="edge_idx") + (" && " + CV_GHOST_REQ_B % dict(e="edge_idx") if basin else "")
     return Unit(
         name="carve_step", file=SINK_H, anchor=CV_ANCHOR, inner=r"for \(size_type edge_idx : basin_graph\.tree\(\)\)\s*\{",
         sig="void carve_step(%s, size_t edge_idx%s)" % (CV_PARAMS, CV_GPARAMS), pre=cv_pre(), defs=_sink_defs(),
@@ -387,23 +717,23 @@ def make_carve_step(lemma=None):
                V(r"\bauto (\w+) = receivers\((\w+), 0\);", r"size_t \1 = CV_REC_RD(\2);"),
                V(r"\bstd::swap\(", "OR_SWAP(")] + SB_VOCAB,
         body_prefix="    /* ghost: the two chain nodes at the ghost position and entry values at the ghosts (a loop invariant cannot use __CPROVER_old) */\n"
-                    "    const size_t gh_a = CHN(edge_idx, GJ), gh_b = CHN(edge_idx, GJ + 1);\n"
+                    "    const size_t gh_a = CHN(GJ), gh_b = CHN(GJ + 1);\n"
                     "    const size_t gh_r = REC(SG), gh_rb = REC(gh_b); const double gh_d = DIST(SG), gh_da = DIST(gh_a), gh_db = DIST(gh_b);\n",
-        contract=CV_SHAPE + r"""
+        contract=cv_shape(basin) + r"""
 __CPROVER_requires(edge_idx < m_edges_n && SG < gsize)
 /* ghost chain position: inside the ghost table; the two table entries there name grid nodes (a choice of the ghost, no statement about the code) */
-__CPROVER_requires(GJ < gsize && COFF(edge_idx) < gsize && COFF(edge_idx) + GJ + 1 < NGN && CHN(edge_idx, GJ) < gsize && CHN(edge_idx, GJ + 1) < gsize)
+__CPROVER_requires(GJ < gsize && cv_off < gsize && cv_off + GJ + 1 < NGN && CHN(GJ) < gsize && CHN(GJ + 1) < gsize)
 /* the edge is either an outer-basin link without a pass (skipped) or a well-formed oriented pass */
 __CPROVER_requires(E_OUT(edge_idx) == SIZE_MAX || (E_WF(edge_idx) && %(GREQ)s))
 __CPROVER_assigns(__CPROVER_object_whole(m_receivers), __CPROVER_object_whole(m_receivers_distance))
 /* skip outer basins: untouched */
 __CPROVER_ensures(E_OUT(edge_idx) == SIZE_MAX ==> (REC(SG) == OLD(REC(SG)) && SAME_D(DIST(SG), OLD(DIST(SG)))))
 __CPROVER_ensures(E_OUT(edge_idx) != SIZE_MAX ==> (%(POST)s))
-""" % dict(GREQ=CV_GHOST_REQ % dict(e="edge_idx"), POST=post),
+""" % dict(GREQ=greq, POST=post),
         loops={0: r"""
 __CPROVER_assigns(current_node, next_node, previous_dist, __CPROVER_object_whole(m_receivers), __CPROVER_object_whole(m_receivers_distance))
 """ + inv + r"""/* termination: the pit is reached by following receivers (it sits at the last position of the chain) */
-__CPROVER_decreases(CK(edge_idx) - CJ)
+__CPROVER_decreases(CK - CJ)
 """})
 
 
@@ -414,7 +744,7 @@ size_t nondet_size_t(void); _Bool nondet_bool(void); double nondet_double(void);
 void h_%(fn)s(void)
 {
     size_t gsize = nondet_size_t(), nbasins = nondet_size_t();
-    size_t *m_receivers; double *m_receivers_distance; const size_t *pits, *m_tree; const struct fsl_edge *m_edges; const struct cv_node *NG;
+    size_t *m_receivers; double *m_receivers_distance; const size_t *pits, *m_tree, *NGB, *NGR, *NGP, *NGC; const struct fsl_edge *m_edges;
     m_edges_n = nondet_size_t(); m_tree_n = nondet_size_t(); m_tree_cap = nondet_size_t(); NGN = nondet_size_t();
     SG = nondet_size_t(); GJ = nondet_size_t(); SGT = nondet_size_t(); SE = nondet_size_t();
     %(call)s;
@@ -429,12 +759,71 @@ _CV_WHAT = {
     "drain": "inside the basin a potential strictly decreases along the NEW receivers up to the inflow pass node, which drains into another basin "
              "(no cycle inside the basin, the basin is left after finitely many steps)",
 }
+# --pointer-overflow-check is off for the carve groups (measured on the walk alone: 217 s without, 382 s with it); the index obligations
+# (xtensor/vector index in range, --bounds-check, --pointer-check) stay on and every size is <= 2^40, so no pointer sum can wrap
 G_CV_STEP = [Group(
     name="orient.carve.step.%s" % l, units=[make_carve_step(l)], extra_c=[MODEL_H, OR_H],
     harness=H_CV % dict(fn="carve_step", call="carve_step(%s, nondet_size_t(), nondet_size_t(), nondet_size_t())" % CV_ARGS),
-    entry="h_carve_step", enforce="carve_step", loop_contracts=True, backend="cvc5", timeout=900, min_obligations=30,
+    entry="h_carve_step", enforce="carve_step", loop_contracts=True, backend="cadical", timeout=1800, min_obligations=30,
+    no_checks=["--pointer-overflow-check"],
     clause="update_routes_sinks_carve, one tree edge (an outer-basin link is skipped untouched; the walk down the old receiver chain terminates: "
-           "rank to the pit decreases), lemma `%s`: %s" % (l, _CV_WHAT[l])) for l in CV_LEMMAS]
+           "the pit sits at the last chain position), lemma `%s`: %s" % (l, _CV_WHAT[l])) for l in CV_LEMMAS]
 
-GROUPS = {"C15": [G_VISIT, G_OR_BOUNDED], "C01": G_CV_STEP}
-PROPS = {}
+# groups whose proofs do not finish on any installed back end yet (memory / time): kept for development, NOT registered, nothing is claimed from them
+EXPERIMENTAL = [G_CSR, G_POP, G_DFS]
+
+_OR_GROUPS = [G_COUNT, G_FILL, G_VISIT, G_OR_BOUNDED]
+GROUPS = {"C15": _OR_GROUPS, "C01": G_CV_STEP, "C08": [G_COUNT, G_FILL, G_VISIT] + G_CV_STEP}
+PROPS = {
+    "C15": dict(
+        level="other",
+        explanation="orient_edges (orientation clause of C15).  Decided for all inputs (unbounded): one incident edge of the popped basin (outlined body of the inner "
+                    "`for` of the depth-first parse) -- the edge towards the parent stays (parent, basin), every other incident edge ends up (basin, other end) with link and "
+                    "pass swapped together, weight and length untouched, exactly one stack entry pushed, every other edge and older stack entry untouched; the two CSR loop "
+                    "bodies (degree count of exactly the two end points; edge id stored in the rows of BOTH end points, indices inside the table).  `After orientation every "
+                    "tree edge points from the basin nearer the root to the farther one` for the whole function is a BOUNDED check (all rooted forests with <= %d basins, "
+                    "every storage order and initial direction, arbitrary scratch pre-state), never counted as proof." % NB_B,
+        assumptions=[
+            "orient_edges, visit step: the slot read holds a tree edge incident to the popped basin joining two DIFFERENT basins < basins_count() (postcondition of the CSR "
+            "phase + input well-formedness of the tree, producers compute_tree_*; instance at the slot read)",
+            "orient_edges: m_root < basins_count() (an unmasked base-level node exists; otherwise m_root = size_type(-1) indexes out of bounds: outside the documented domain, "
+            "recorded as F10 in DESIGN 10.2)",
+            "std::vector model (buffer, length, ghost capacity): `length < capacity` at push_back is a model artefact (the real vector reallocates)",
+        ],
+        unmechanised=[
+            "depth-first parse as a whole: the stack-element invariant (a stacked (node, parent) has its tree edge already stored as (parent, node)) + the visit step give "
+            "`every tree edge reachable from the root ends up oriented away from it` by induction over the pops; the while-loop proof (units orient_pop / orient_dfs with a "
+            "ghost forest) exists in spec/orient.py but does not finish on any installed back end (memory / 2000 s) and is NOT claimed",
+        ],
+        undecided=[
+            "orient_edges: CSR phase as a whole (rows consecutive, as long as the degree, every tree edge in both rows) -- loop-level group orient.csr.loops does not finish; "
+            "only its two loop bodies are decided",
+            "orient_edges: the depth-first while loop for unbounded trees (see unmechanised); bounded: all forests on <= %d basins" % NB_B,
+        ],
+    ),
+    "C01": dict(
+        level="other",
+        explanation="update_routes_sinks_carve, one tree edge (outlined loop body, inner `while` under a loop contract with a ghost chain and termination measure): an "
+                    "outer-basin link is skipped untouched; otherwise the inflow pass node is re-routed to the outflow pass node with distance pass_length, the old receiver "
+                    "chain from it down to the pit is reversed (chain[j+1] now flows to chain[j] with the OLD distance of chain[j]), nothing else is written, and inside the "
+                    "re-routed basin a potential strictly decreases along the NEW receivers up to the inflow pass node, which drains into ANOTHER basin (no cycle inside the "
+                    "basin, the basin is left after finitely many steps).",
+        assumptions=[
+            "update_routes_sinks_carve: ghost chain tables (harness-owned, read-only): the old receiver chain of the edge from the inflow pass node to the pit of its basin, "
+            "positions and ranks; THE PIT IS REACHED BY FOLLOWING RECEIVERS FROM THE INFLOW PASS NODE (basin contract: the pass node lies in the basin whose outlet is the pit; "
+            "producers compute_basins C19 / connect_basins) -- instantiated on read at the chain positions the walk touches",
+            "update_routes_sinks_carve: an oriented tree edge with a pass is well-formed (two different basins, pass nodes are grid nodes in the basin of their side, the pit "
+            "is the outlet of the inflow basin); IH instance `a chain node further down than the walk has not been written yet` at the receiver read (DESIGN 3.9)",
+            "--pointer-overflow-check is off for the carve groups (every size <= 2^40, index obligations stay on)",
+        ],
+        undecided=[
+            "update_routes_sinks_carve: the loop over the tree as a whole (different tree edges re-route different basins; needs the orientation contract of orient_edges)",
+            "that the re-routed forest as a whole is acyclic and rooted at base levels (reachability over basins; needs the tree orientation for all basins)",
+        ],
+    ),
+    "C08": dict(
+        level="other",
+        explanation="orient_edges loop bodies and the carve step: every vector / table index in range under the stated instances.",
+        undecided=["orient_edges / update_routes_sinks_carve as whole functions (loop-level groups do not finish)"],
+    ),
+}
